@@ -427,6 +427,148 @@ fn fill_new(s: &Script, limit: usize) -> (Vec<Value>, Vec<bool>, Vec<u8>) {
     (steps, accepted, out)
 }
 
+const TPOOL: &[&str] = &[
+    "www.example.org.", "www.example.org.uk.", "mail.example.org.", "example.org.", "mail.example.org.uk.",
+    "example.com.", "www.example.com.", "org.", "uk.",
+];
+
+fn gen_trunc_segment(rng: &mut Rng, qname: Option<String>) -> Script {
+    let pick = |rng: &mut Rng| TPOOL[rng.below(TPOOL.len() as u64) as usize].to_string();
+    let mut recs = vec![];
+    let mut sec = 1u8;
+    for _ in 0..rng.below(4) {
+        if rng.chance(1, 3) && sec < 3 {
+            sec += 1;
+        }
+        let owner = pick(rng);
+        let rd = match rng.below(4) {
+            0 => Rd::Ns(pick(rng)),
+            1 => Rd::Cname(pick(rng)),
+            2 => Rd::Mx(pick(rng)),
+            _ => Rd::A,
+        };
+        recs.push(Rec { sec, owner, rd });
+    }
+    Script { qname: qname.unwrap_or_else(|| pick(rng)), recs }
+}
+
+fn op_json(op: &str, sec: u8, ok: bool, c: [u16; 4]) -> Value {
+    json!({"op": op, "sec": sec, "ok": ok, "counts": [c[0], c[1], c[2], c[3]]})
+}
+
+/// push a segment, discard everything (`truncate()`), push another segment
+/// into the same builder, finish: new builder
+fn trunc_new(s1: &Script, s2: &Script) -> (Vec<Value>, Vec<u8>) {
+    let mut buffer = vec![0u8; 2000];
+    let mut compressor = NameCompressor::default();
+    let mut flags = HeaderFlags::default();
+    flags.set_qr(true);
+    let mut b = NewBuilder::new(&mut buffer, &mut compressor, U16::new(0x1234), flags);
+    let rn = |x: &str| RevNameBuf::from_str(x).unwrap();
+    let nn = |x: &str| NameBuf::from_str(x).unwrap();
+    let mut steps = vec![];
+    let cnt = |b: &NewBuilder<'_, '_>| {
+        let c = b.header().counts;
+        [c.questions.get(), c.answers.get(), c.authorities.get(), c.additionals.get()]
+    };
+    for (i, s) in [s1, s2].into_iter().enumerate() {
+        let ok = b
+            .push_question(&domain::new::base::Question { qname: rn(&s.qname), qtype: QType::A, qclass: QClass::IN })
+            .is_ok();
+        steps.push(op_json("push", 0, ok, cnt(&b)));
+        for r in &s.recs {
+            let holder: NameBuf = match &r.rd {
+                Rd::Ns(n) | Rd::Cname(n) | Rd::Mx(n) => nn(n),
+                _ => nn("a."),
+            };
+            let nref: &NewName = &holder;
+            let (t, rdata): (u16, nrd::RecordData<'_, &NewName>) = match &r.rd {
+                Rd::Ns(_) => (2, nrd::RecordData::Ns(nrd::Ns { server: nref })),
+                Rd::Cname(_) => (5, nrd::RecordData::CName(nrd::CName { name: nref })),
+                Rd::Mx(_) => (15, nrd::RecordData::Mx(nrd::Mx { preference: U16::new(10), exchange: nref })),
+                _ => (1, nrd::RecordData::A(nrd::A { octets: [1, 2, 3, 4] })),
+            };
+            let rec = domain::new::base::Record {
+                rname: rn(&r.owner),
+                rtype: RType::from(t),
+                rclass: RClass::IN,
+                ttl: TTL::from(60),
+                rdata,
+            };
+            let ok = match r.sec {
+                1 => b.push_answer(&rec).is_ok(),
+                2 => b.push_authority(&rec).is_ok(),
+                _ => b.push_additional(&rec).is_ok(),
+            };
+            steps.push(op_json("push", r.sec, ok, cnt(&b)));
+        }
+        if i == 0 {
+            b.truncate();
+            steps.push(op_json("trunc", 0, true, cnt(&b)));
+            if cnt(&b) != [0, 0, 0, 0] {
+                // what a caller has to do by hand today to go on
+                b.header_mut().counts = domain::new::base::SectionCounts::default();
+                steps.push(op_json("reset", 0, true, cnt(&b)));
+            }
+        }
+    }
+    let msg = b.finish();
+    let mut out = vec![];
+    out.extend_from_slice(domain::new::base::wire::AsBytes::as_bytes(&msg.header));
+    out.extend_from_slice(&msg.contents);
+    (steps, out)
+}
+
+/// the same on the established builder: `builder()` rewinds all sections
+fn trunc_old(s1: &Script, s2: &Script) -> (Vec<Value>, Vec<u8>) {
+    let name = |x: &str| Name::<Vec<u8>>::from_str(x).unwrap();
+    let cnt = |c: domain::base::header::HeaderCounts| [c.qdcount(), c.ancount(), c.nscount(), c.arcount()];
+    let ttl = Ttl::from_secs(60);
+    let mut steps = vec![];
+    let mut mb = MessageBuilder::from_target(TreeCompressor::new(Vec::new())).unwrap();
+    mb.header_mut().set_id(0x1234);
+    mb.header_mut().set_qr(true);
+    let mut out = vec![];
+    for (i, s) in [s1, s2].into_iter().enumerate() {
+        let mut qb = mb.question();
+        let ok = qb.push(Question::new(name(&s.qname), Rtype::A, Class::IN)).is_ok();
+        steps.push(op_json("push", 0, ok, cnt(qb.counts())));
+        macro_rules! push {
+            ($b:expr, $r:expr) => {{
+                let ok = match &$r.rd {
+                    Rd::Ns(n) => $b.push(Record::new(name(&$r.owner), Class::IN, ttl, Ns::new(name(n)))),
+                    Rd::Cname(n) => $b.push(Record::new(name(&$r.owner), Class::IN, ttl, Cname::new(name(n)))),
+                    Rd::Mx(n) => $b.push(Record::new(name(&$r.owner), Class::IN, ttl, Mx::new(10, name(n)))),
+                    _ => $b.push(Record::new(name(&$r.owner), Class::IN, ttl, A::from_octets(1, 2, 3, 4))),
+                }
+                .is_ok();
+                steps.push(op_json("push", $r.sec, ok, cnt($b.counts())));
+            }};
+        }
+        let mut ab = qb.answer();
+        for r in s.recs.iter().filter(|r| r.sec == 1) {
+            push!(ab, r);
+        }
+        let mut nb = ab.authority();
+        for r in s.recs.iter().filter(|r| r.sec == 2) {
+            push!(nb, r);
+        }
+        let mut xb = nb.additional();
+        for r in s.recs.iter().filter(|r| r.sec == 3) {
+            push!(xb, r);
+        }
+        if i == 0 {
+            mb = xb.builder();
+            mb.header_mut().set_tc(true);
+            steps.push(op_json("trunc", 0, true, cnt(mb.counts())));
+        } else {
+            out = xb.finish().into_target();
+            break;
+        }
+    }
+    (steps, out)
+}
+
 fn gen_fill_script(rng: &mut Rng) -> Script {
     let pick = |rng: &mut Rng| POOL[rng.below(POOL.len() as u64) as usize].to_string();
     let mut recs = vec![];
@@ -529,6 +671,26 @@ fn main() {
                     }
                     Err(_) => tw.event(json!({"ev": "fillpanic", "side": side, "limit": limit,
                                               "script": format!("{:?}", s).chars().take(600).collect::<String>()})),
+                }
+            }
+            continue;
+        }
+        // push, truncate(), push again into the same builder
+        if i % 6 == 4 {
+            let s1 = gen_trunc_segment(&mut rng, None);
+            let q2 = if rng.chance(1, 2) { Some(s1.qname.clone()) } else { None };
+            let s2 = gen_trunc_segment(&mut rng, q2);
+            let want = expected_items(&s2);
+            for side in ["old", "new"] {
+                let r = catch_unwind(AssertUnwindSafe(|| if side == "old" { trunc_old(&s1, &s2) } else { trunc_new(&s1, &s2) }));
+                match r {
+                    Ok((steps, m)) => {
+                        let j = judge(&m, &want);
+                        tw.event(json!({"ev": "trunc", "side": side, "steps": steps, "m": json_bytes(&m), "items": want,
+                                        "old_reads": j["old_reads"], "new_reads": j["new_reads"]}));
+                    }
+                    Err(_) => tw.event(json!({"ev": "truncpanic", "side": side,
+                                              "script": format!("{:?} / {:?}", s1, s2).chars().take(700).collect::<String>()})),
                 }
             }
             continue;
